@@ -261,10 +261,16 @@ func (d *daemon) outputRaw() []byte {
 
 // breakOutput closes the reading end of the events FIFO: the daemon's next
 // event write fails with EPIPE.
-func (d *daemon) breakOutput() {
+func (d *daemon) breakOutput() (readerLeft bool) {
 	atomic.StoreInt32(&d.outStop, 1)
 	<-d.outEnded
 	syscall.Close(d.outFd)
+	// a non-blocking open for writing succeeds only while somebody still holds a reading end
+	if fd, err := syscall.Open(d.outPath, syscall.O_WRONLY|syscall.O_NONBLOCK|syscall.O_CLOEXEC, 0); err == nil {
+		syscall.Close(fd)
+		return true
+	}
+	return false
 }
 
 // outputLineCount counts the lines of the events file incrementally (only what
